@@ -11,7 +11,7 @@ META = dict(
     level_note="Trusted: z3, symx (incl. its base64 / UTF-8 models, self-tested against CPython), refs/ec_ref.py tables. The armoured text format is parsed "
                "with re.split, for which no symbolic model exists: that clause is NOT decided.",
     stubs=["double SHA-256 = uninterpreted", "generator.possible_public_pairs_for_signature = contract stub (returns 0..1 pairs) in the totality obligations"],
-    assumptions=[], outside=["armoured message parsing (regular expressions)", "production-size curve recovery"],
+    assumptions=["toy-curve obligations: the (key, hash) pair admits a signature at all (some nonce gives r != 0 and s != 0); on a 5-element group some pairs do not and ECDSA signing cannot terminate - impossible on secp256k1"], outside=["armoured message parsing (regular expressions)", "production-size curve recovery"],
 )
 
 
@@ -137,6 +137,9 @@ def toy_roundtrip(ctx, ci):
     d = ctx.concretize(ctx.sym_int("d", 1, n - 1))
     z = ctx.concretize(ctx.sym_int("z", 1, 2 * n))
     comp = ctx.choose("compressed", [True, False])
+    # a signature must exist at all: on a 5-element group some (key, hash) pairs make r = 0 or s = 0 for EVERY nonce, and ECDSA's
+    # "pick another nonce" never terminates (cannot happen on secp256k1)
+    ctx.assume(any((c["table"][k][0] % n) != 0 and (z + d * (c["table"][k][0] % n)) % n != 0 for k in range(1, n)))
     ms = _signer("Bitcoin", g)
     Q = d * g
     sig = ms.signature_for_message_hash(d, z, comp)
